@@ -7,6 +7,10 @@ rnd, k1, k2 = sys.argv[1], sys.argv[2], sys.argv[3]
 here = os.path.join(os.path.dirname(os.path.abspath(__file__)), '..')
 os.makedirs('/tmp/seedprompts', exist_ok=True)
 EXTRA = {
+ '6': '''This is the SIXTH round: the obvious places and the obvious tricks have been used (see the long list above). Requirements for this round:
+ * Change {k1} must be a QUIET LOSS OF ACCURACY, not a blatantly wrong value: after the change some input class inside the stated scope gets a result whose relative error is between about 1e-9 and 1e-3 (far above rounding error of the width, far below "obviously wrong") while everything else stays bit-identical or within rounding. Typical realistic sources: a reordered or pairwise-vs-naive summation that cancels for some inputs, an intermediate narrowed to f32 or to an integer, a mathematical constant or series truncated, an "equivalent" reformulation that subtracts nearly equal numbers, an iteration stopped one step early, a tolerance constant loosened for a "speed-up", a Horner / expm1 / ln_1p replacement used outside its safe range. State in meta.json the size of the error you measured and for which inputs.
+ * Change {k2} must break a clause of the statement OTHER THAN THE HEADLINE ONE. Read the statement sentence by sentence and choose the clause you judge least likely to be checked: a secondary output or accessor, a rejection / error clause, a "for every kernel / metric / solver / criterion / backend" clause for the rarest variant, a reproducibility or symmetry or invariance clause, a clause about labels / indices / ordering of the output, a clause that only applies to a special case named in the statement. The headline behaviour must stay intact.
+ * Classes already used in this code base and therefore probably watched — avoid them: builder (with_*) steps that reset other fields; api::Predictor / SupervisedEstimator trait wrappers that bypass the inherent method; absolute-epsilon thresholds at tiny scales; tie-breaking differences; expanded-norm distance formulas; serde attributes or (de)serialiser edits that only show after a serialise/deserialise round trip; state carried from one predicted row to the next; zero-sized matrices; an iteration limit of 1; swapped nrows/ncols in non-square cases; a `>`/`>=` flip in an argument-validation range check; fast paths / early exits keyed on all-zero, constant or "already sorted" inputs; copysign or sign tests at exactly zero; label fast paths assuming 0..k-1; keys narrowed to f32 or to an integer type for labels; quicksort pivot or stack policy; ndarray memory-layout assumptions; fast paths in take / matmul / dot; one-pass variance / covariance formulas at large offsets; shortcuts for a single feature / single row / k equal to n; p = -inf norms; polynomial kernels with negative bases or fractional degrees; u64::MAX seeds; products that under/overflow at extreme overall scales.''',
  '5': '''This is the FIFTH round: the obvious places and the obvious tricks have been used (see the long list above). Requirements for this round:
  * Change {k1} must be wrong ONLY at a boundary of the domain the property's scope states explicitly (read the "Scope of inputs" line): the smallest or largest admissible size (one row, one feature, two rows, k equal to n, one member in a class, n_trees = 1, depth 1, a single category, a single fold member ...), the end of a stated parameter range, the closed end of an interval, an exactly representable special value (0.0, -0.0, 1.0, an exact power of two, an exact tie) — through an edit that reads as harmless everywhere else. It must not be one of the classes listed as already tried or as watched.
  * Change {k2} must be wrong ONLY for a specific COMBINATION of two or more settings or input features that are each handled correctly on their own (an interaction): e.g. a non-default option together with a particular data class, two non-default options together, a particular dimension together with a particular sample count, a sign pattern together with a scale. Either setting alone must leave the demo passing — verify that.
